@@ -33,7 +33,7 @@ STRING_VALUES = {
     "border-radius": ["0px", "4px", "50%", "3px 6px"], "inner-border-radius": ["0px", "4px"],
     "background-position": ["top center", "center", "left top", "50% 50%"], "background-position-x": ["left", "50%"],
     "background-position-y": ["top", "10px"], "background-size": ["auto", "cover", "contain", "100px 50px"],
-    "alt": ["alt text", "a &amp; b"], "title": ["a title"], "name": ["facebook", "twitter", "github", "custom"],
+    "alt": ["alt text", "a &amp; b"], "title": ["a title"], "name": ["facebook", "twitter", "github"],
     "rel": ["noopener"], "target": ["_blank", "_self"], "font-style": ["italic", "normal"], "font-weight": ["bold", "400", "700"],
     "text-decoration": ["none", "underline"], "text-transform": ["uppercase", "none"], "letter-spacing": ["1px", "normal"],
     "line-height": ["1", "20px", "120%", "1.5"], "font-size": ["13px", "20px", "10px"], "height": ["20px", "100px"],
